@@ -316,7 +316,7 @@ func ruleNoGuardedAlias(c *Ctx, rule string) {
 func ruleCloseOnce(c *Ctx, rule string) {
 	w := c.W
 	li := w.lockInfo()
-	c.Rule(rule, "close(ch) discipline: every close of a channel held in a struct field is dominated by the default edge of a non-blocking receive on that channel (closed-test) inside a critical section or single-threaded teardown, or is guarded by a nil/ok test of a once-only holder (the stop function of a periodic timer); otherwise a second close panics", 3)
+	c.Rule(rule, "close(ch) discipline: every close of a channel held in a struct field is dominated by the default edge of a non-blocking receive on that channel (closed-test) inside a critical section or single-threaded teardown, or is guarded by a nil/ok test of a once-only holder (the stop function of a periodic timer); otherwise a second close panics", 2)
 	for _, fn := range w.ModFns {
 		w.eachInstr(fn, func(in ssa.Instruction) {
 			call, ok := in.(*ssa.Call)
